@@ -54,6 +54,12 @@ type KnownFinding struct {
 	Status     string `json:"status"` // open | fixed
 	Commit     string `json:"commit,omitempty"`
 	Replay     string `json:"replay,omitempty"`
+	// Demo-backed finding (no contract obligation expresses it): the demonstration test under /verif/demos is run
+	// against the real code on every check; while it fails the finding is reported as known, once it passes the
+	// finding is reported as no longer reproducing.
+	DemoPackage string `json:"demo_package,omitempty"`
+	DemoFile    string `json:"demo_file,omitempty"`
+	DemoRun     string `json:"demo_run,omitempty"`
 }
 
 type oblResult struct {
@@ -535,6 +541,35 @@ func cmdCheck(args []string) int {
 			exit = 1
 			fmt.Printf("VIOLATION property=%s replay=%s obligation=bounded.%s\n", cfg.ID, path, bc.Name)
 		}
+	}
+
+	// demo-backed known findings of this property
+	for id, kf := range openFinding {
+		if kf.DemoFile == "" {
+			continue
+		}
+		src, err := os.ReadFile(filepath.Join(*verif, "demos", kf.DemoFile))
+		if err != nil {
+			fmt.Printf("UNDECIDED finding=%s reason=demo file missing: %v\n", id, err)
+			continue
+		}
+		os.MkdirAll(filepath.Join(*verif, "bounded"), 0o755)
+		tmpName := "zz_demo_" + sanitize(id) + "_test.go"
+		os.WriteFile(filepath.Join(*verif, "bounded", tmpName), src, 0o644)
+		ok, out, _ := runBounded(BoundedCheck{Name: id, Package: kf.DemoPackage, Test: tmpName, Run: "^" + kf.DemoRun + "$"}, *repo, *verif, *tier)
+		os.Remove(filepath.Join(*verif, "bounded", tmpName))
+		if ok {
+			fmt.Printf("NOTE: known finding %s no longer reproduces (demo %s passes) — RESOLVED?\n", id, kf.DemoRun)
+			continue
+		}
+		if !strings.Contains(out, "--- FAIL") {
+			fmt.Printf("UNDECIDED finding=%s reason=demo did not run to a verdict\n", id)
+			continue
+		}
+		if !contains(findingsSeen, id) {
+			findingsSeen = append(findingsSeen, id)
+		}
+		fmt.Printf("KNOWN-FINDING: property=%s %s [%s; reproduced by demo %s on the current tree]\n", cfg.ID, kf.What, id, kf.DemoRun)
 	}
 
 	// samples: three distinct obligations chosen by seed
